@@ -1,4 +1,5 @@
 """C03 Stored diagram well-formed; level bookkeeping"""
+import elevels
 import eswap
 import evlm
 import ewho
@@ -64,5 +65,9 @@ def run(ctx):
     nsw = eswap.run(ctx, F)
     ctx.floor("E-TABLE.swap", "interpreted level_swap situations", nsw, 80)
     ecanon.check_id_split(ctx, F)
+    ctx.explain("E-LEVELS: Manager::levels() (forward, backward and mixed iteration) and Manager::level(no) of both managers pair "
+                "every level number with that level's unique table (interpreted on a four-level model).")
+    nlv = elevels.run(ctx, F)
+    ctx.floor("E-LEVELS", "interpreted iteration / access situations", nlv, 16)
     ctx.not_decided = ("uniqueness/reducedness of the stored graph after arbitrary histories; minimal node counts; "
                        "the then-edge regularity of complement-edge nodes (planned tag-lattice rule)")
